@@ -1,7 +1,7 @@
 (* C01 property theorems. *)
 From Coq Require Import NArith ZArith List Bool Arith.
 From Coq Require Import Permutation Sorted.
-From OG Require Import C01.Model C01.Proofs C01.Proofs2 C01.Proofs3 C01.Proofs4 C01.Proofs5 C01.ProofsC.
+From OG Require Import C01.Model C01.Proofs C01.Proofs2 C01.Proofs3 C01.Proofs4 C01.Proofs5 C01.ProofsC C01.ModelF C01.ProofsF.
 Import ListNotations.
 
 (* records appended to partition (counter mod n) starting from counter 0, replayed one record per unfinished
@@ -184,6 +184,42 @@ Example barrier_example :
   let ops := [CEnter; CEnter; CEnter; CSlot; CSlot; CSlot; CAppend 2; CAppend 1; CAck 1; CAppend 0; CAck 0; CAck 2; CEnter; CSlot; CAppend 3] in
   cw_parts (cwrun true 2 ops) = [[2; 0]; [1; 3]] /\ In (3, [2; 0; 1]) (cw_quiet (cwrun true 2 ops)) /\ cw_replay (cwrun true 2 ops) = [2; 1; 0; 3].
 Proof. vm_compute. repeat split; auto. Qed.
+
+(* PROVED DESIGN for a repair of C01-walphase (ModelF.v; no patch lands, see NOTES.md): file names <epoch>_<rot>.wal, one epoch
+   number per log switch shared by all partitions, counter re-phased at the switch, partition 0's <epoch>_0.wal created before
+   the epoch's first record (the marker) and removed FIRST, size rotation per partition inside the epoch, restart = list the
+   directory in ANY order, sort by epoch number, ignore epochs without marker, replay the live ones one after the other, next
+   epoch number above everything on disk; an old-layout log is era 0: marker first, then renamed file by file, removed only
+   when no old name is left. For every n > 0, every start (empty log or any old-layout log), EVERY sequence of the file-level
+   steps - marker creation, file creation, append, rotation, switch, commit, marker removal, orphan file removal, upgrade
+   steps, crash (which forgets the volatile state), in any order and any number, so a crash between any two steps and crashes
+   during recovery are included - and every directory listing: what the restart recovers (data files + replayed log) is the
+   last-write-wins state of the acknowledged history; the acknowledged history is the old-layout log's content in its replay
+   order followed by every appended batch (second theorem). *)
+Theorem C01_file_level_recovery_exact : forall (n : nat) (legacy : option (list (list (list batch)) * nat)) (ops : list fop)
+    (listing : list lentry) (k : key),
+  0 < n -> Permutation listing (on_disk (frun n legacy ops)) ->
+  recovered_f (frun n legacy ops) listing k = lww (acked (f_g (frun n legacy ops))) k.
+Proof. exact file_level_recovery_exact. Qed.
+Print Assumptions C01_file_level_recovery_exact.
+
+Theorem C01_file_level_acked_history : forall (n : nat) (st : fstate) (o : fop),
+  acked (f_g (fstep n st o)) = acked (f_g st) ++ match o, f_cure st with FAppend b, Some _ => [b] | _, _ => [] end.
+Proof. exact acked_step. Qed.
+Print Assumptions C01_file_level_acked_history.
+
+(* non-vacuity: 2 partitions, an old-layout log with two records of one cell; upgrade (marker, rename); an epoch of three
+   appends with a size rotation of partition 0 in it; switch; a fourth append; commit, commit; the old era's and the first
+   epoch's markers removed (their other files stay behind as orphans); crash. Listing in reverse order. *)
+Example file_level_example :
+  let kx := (1, 1, 1)%N in
+  let ops := [FUpMarker; FUpRename; FOpen; FAppend [(kx, 3%Z)]; FRotate 0; FAppend [(kx, 4%Z)]; FAppend [(kx, 5%Z)]; FSwitch;
+              FOpen; FAppend [(kx, 6%Z)]; FCommit; FCommit; FRemoveMarker; FRemoveMarker; FCrash] in
+  let st := frun 2 (Some ([[[[(kx, 1%Z)]]]; [[[(kx, 2%Z)]]]], 0)) ops in
+  length (f_orph st) = 2 /\ length (f_closed st) = 1 /\ f_cur st = 3 /\
+  recovered_f st (rev (on_disk st)) kx = Some 6%Z /\ lww (acked (f_g st)) kx = Some 6%Z /\
+  forallb (fun e => negb (le_live e)) (f_orph st) = true /\ map (fun e => length (concat (pconcat e))) (f_orph st) = [3; 2].
+Proof. vm_compute. repeat split; reflexivity. Qed.
 
 (* re-applying in order a part of the history that is already in the data files changes nothing (replay of a log
    whose prefix is flushed) *)
